@@ -28,6 +28,7 @@ import toolcheck as TC     # noqa: E402
 import img_tie as IMG      # noqa: E402
 import imgpost_tie as IMGP  # noqa: E402
 import e2e_tie as E2E     # noqa: E402
+import xreal_tie as XR    # noqa: E402
 
 LEVEL = "proof"
 
@@ -193,6 +194,11 @@ def run(ctx):
     # composed packer / reader (coq/ImgE2E): pack_all against the real gensquashfs main() with a toy compressor, read_all on its images
     h_e2e = E2E.build_harness(asan, HERE)
     drv_e2e = E2E.driver(core, HERE)
+    # section 8 (coq/ImgXattrReader): read_all_real / xattr_session of the C05 xattr reader model on real images, vs input and rdsquashfs -x
+    drv_xreal = XR.driver(core, HERE)
+    ctx.trusted += ["props/C01/xreal_driver.ml, xreal_tie.py (real images of the e2e stage + a 700 node image -> extracted read_all_real and "
+                    "xattr_session; dump_xattrs.c's printing re-implemented in Python to compare the model's ordered pair lists with the "
+                    "stdout of rdsquashfs -x byte for byte); coq/C05/Xattr.v itself is tied to xattr_reader.c by C05's check"]
     ctx.trusted += ["props/C01/h_e2e.c (bin/gensquashfs/src/*.c of the working tree with main renamed and sqfs_compressor_create redirected "
                     "by the linker to a toy compressor), props/C01/e2e_driver.ml (xxHash32 re-implemented in OCaml, parsing / printing, "
                     "toy compressors of coq/ImgE2E/DriverDefs.v), e2e_stubs.c (system zlib / liblzma / liblz4 / libzstd as decompressor "
@@ -201,8 +207,8 @@ def run(ctx):
                     "coq/ImgE2E/PackAll.v: pack_all is a hand-written composition (which model output feeds which model input: file "
                     "order = fs->files, apply_dfs order = pre-order incl. hard link entries, the flush offset); its check is the "
                     "byte-exact tie against the real main()",
-                    "the xattr reader inside read_all is the reader SPECIFICATION of coq/ImgXattr (doc/format.adoc), not a model of "
-                    "xattr_reader.c"]
+                    "the xattr reader inside read_all is the reader SPECIFICATION of coq/ImgXattr (doc/format.adoc); read_all_real "
+                    "(section 8) uses the C05 model of xattr_reader.c instead and is proved equal to read_all on every run of pack_all"]
     ctx.trusted += ["props/C01/imgpost_driver.ml, imgpost_cases.py, imgpost_tie.py (add-operation lists -> extracted C11 fs_add/post_process "
                     "+ ImgPost.Bridge.to_img, compared exactly with h_img.c's dump of fs->inodes)"]
     ctx.trusted += ["props/C01/reader_driver.ml (whole image bytes -> extracted ReadImage.read_image_c05, listing of the tree), the W "
@@ -235,7 +241,10 @@ def run(ctx):
         f_xattr = ex.submit(TC.check_xattr_tie, ctx, h_xattr, drv, random.Random(ctx.seed * 7919 + 3), quick, ENV) if h_xattr else None
         f_tool = ex.submit(TC.tool_oracle, ctx, asan, plain, random.Random(ctx.seed * 7919 + 4), quick, ENV)
         f_img = ex.submit(IMG.stage, ctx, h_img, drv_img, random.Random(ctx.seed * 7919 + 5), quick, drv_rd)
-        f_e2e = ex.submit(E2E.stage, ctx, h_e2e, drv_e2e, random.Random(ctx.seed * 7919 + 7), quick, asan["tools"]["gensquashfs"])
+        rnd_x = random.Random(ctx.seed * 7919 + 8)
+        f_e2e = ex.submit(E2E.stage, ctx, h_e2e, drv_e2e, random.Random(ctx.seed * 7919 + 7), quick, asan["tools"]["gensquashfs"],
+                          lambda real, work: XR.leg(ctx, drv_xreal, asan["tools"]["gensquashfs"], asan["tools"]["rdsquashfs"], real,
+                                                    work, rnd_x, quick))
         stats, tb, pb, types_seen = f_inode.result()
         tie_bad += tb
         prop_bad += pb
@@ -255,9 +264,10 @@ def run(ctx):
     ctx.log("lib/fstree stage (add operations -> post-processed tree): %s" % pstats)
     ctx.log("e2e stage (pack_all vs the real gensquashfs main(), read_all on its images): %s" % estats)
 
-    evals = estats["cases"] + estats.get("real_images", 0) + pstats["cases"] + istats["cases"] + istats.get("whole_images", 0) + stats["enc"] + stats["dec"] + stats["mut"] + stats["ser"] + nidt + (xstats or {}).get("cases", 0) + tstats["images"]
+    xr = estats.get("xreal") or {}
+    evals = xr.get("images", 0) + xr.get("rdsquashfs_x", 0) + estats["cases"] + estats.get("real_images", 0) + pstats["cases"] + istats["cases"] + istats.get("whole_images", 0) + stats["enc"] + stats["dec"] + stats["mut"] + stats["ser"] + nidt + (xstats or {}).get("cases", 0) + tstats["images"]
     ctx.coverage["evaluations"] = evals
-    ctx.coverage["distinct_nontrivial"] = estats["exact"] + estats.get("real_readback_ok", 0) + pstats["built"] + istats["impl_readback_ok"] + istats.get("c05_model_ok", 0) + stats["enc_wf"] + stats["dec_ok"] + stats["ser_ok"] + (xstats or {}).get("nontrivial", 0) + tstats["images_ok"]
+    ctx.coverage["distinct_nontrivial"] = xr.get("readback_ok", 0) + xr.get("rdsquashfs_x_same", 0) + estats["exact"] + estats.get("real_readback_ok", 0) + pstats["built"] + istats["impl_readback_ok"] + istats.get("c05_model_ok", 0) + stats["enc_wf"] + stats["dec_ok"] + stats["ser_ok"] + (xstats or {}).get("nontrivial", 0) + tstats["images_ok"]
     ctx.coverage["traces_validated_against_impl"] = evals
     ctx.coverage["exhaustive"] = False
     ctx.coverage["rule"] = (
@@ -283,7 +293,10 @@ def run(ctx):
         "line order), 2..7 regular files (0..3 blocks of random / zero / repeated / zero-run data + tails of 1..bs-1 bytes, duplicates, "
         "shared tails), symlinks, devices, fifos, sockets, 0..3 hard links (to files, non-files and links, before their target), "
         "xattr map files with 0..5 sections (repeated keys, empty / shared long values, the same set on several nodes, sections "
-        "for hard links), block size 4096 / 8192, -e, -T, -j 1 / 4, toy modes store / run-length / zero-run-length; tool level: %d generated trees x configurations (seed %d). "
+        "for hard links), block size 4096 / 8192, -e, -T, -j 1 / 4, toy modes store / run-length / zero-run-length; section 8 leg: the "
+        "real-compressor images of the e2e stage and a 700 (thorough: also 1100) node image with as many distinct xattr sets (two / three id "
+        "blocks, key-value stream over several metadata blocks, values shared by reference across blocks) read by read_all_real, a second "
+        "reader object on the permuted index sequence, rdsquashfs -x on 5 (14) paths per image; tool level: %d generated trees x configurations (seed %d). "
         "non-trivial = well-formed encoder case / decoder case accepted by the implementation / serialize case that succeeded / "
         "image that gensquashfs produced and that was compared completely" % (tstats["images"], ctx.seed))
     ctx.coverage["distribution"] = dict(e2e=estats, imgpost=pstats, img=istats, inode=stats, inode_types_wf=sorted(types_seen, key=int), idt=nidt, xattr=xstats, tool=tstats)
@@ -358,6 +371,10 @@ def replay(ctx, asan, plain, h_inode, h_xattr, drv):
         st = E2E.replay(ctx, E2E.build_harness(asan, HERE), E2E.driver(core, HERE), asan["tools"]["gensquashfs"], r)
         ctx.coverage["evaluations"] = st["cases"]
         return
+    if kind == "xreal":
+        st = XR.replay(ctx, XR.driver(core, HERE), asan["tools"]["gensquashfs"], asan["tools"]["rdsquashfs"], r)
+        ctx.coverage["evaluations"] = st["images"]
+        return
     if kind in ("tool", "targeted"):
         TC.replay_tool(ctx, asan, plain, r, ENV)
         return
@@ -372,3 +389,4 @@ def setup():
     core.build_model_driver("C01imgpost", "ExtractImgPost.v", os.path.join(HERE, "imgpost_driver.ml"))
     core.build_model_driver("C01reader", "ExtractC01Reader.v", os.path.join(HERE, "reader_driver.ml"))
     E2E.driver(core, HERE)
+    XR.driver(core, HERE)
